@@ -106,6 +106,7 @@ type AtRule struct {
 	Target string
 	Site   int // -1: every site
 	C      Clause
+	Set    string // ghost update after the call: "at call X set g = expr"
 }
 
 // ContractSet holds everything parsed from contract, trusted and spec files.
@@ -308,10 +309,37 @@ func (cs *ContractSet) parseContractLines(file, pkgPath string, lines []string, 
 			}
 			f := strings.Fields(rest)
 			k := strings.Index(rest, " assert ")
+			isSet := false
+			if k < 0 {
+				if k = strings.Index(rest, " set "); k >= 0 {
+					isSet = true
+				}
+			}
 			if len(f) < 4 || k < 0 || (f[0] != "call" && f[0] != "effect") {
-				return errf(i, "expected: at call|effect <target> assert <clause>")
+				return errf(i, "expected: at call|effect <target> assert <clause> | set <ghost> = <expr>")
 			}
 			r := AtRule{Kind: f[0], Target: f[1], Site: -1}
+			if isSet {
+				body := rest[k+len(" set "):]
+				eq := strings.Index(body, "=")
+				if eq < 0 {
+					return errf(i, "expected: set <ghost> = <expr>")
+				}
+				r.Set = strings.TrimSpace(body[:eq])
+				if h := strings.LastIndex(r.Target, "#"); h > 0 {
+					if n, err := strconv.Atoi(r.Target[h+1:]); err == nil {
+						r.Site = n
+						r.Target = r.Target[:h]
+					}
+				}
+				c, err := parseClause(strings.TrimSpace(body[eq+1:]))
+				if err != nil {
+					return errf(i, "%v", err)
+				}
+				r.C = c
+				cur.Ats = append(cur.Ats, r)
+				continue
+			}
 			if h := strings.LastIndex(r.Target, "#"); h > 0 {
 				if n, err := strconv.Atoi(r.Target[h+1:]); err == nil {
 					r.Site = n
